@@ -849,6 +849,16 @@ impl Run<'_> {
             return;
         }
         if outcome == Outcome::Aborted {
+            // the call exceeded the step budget of a single call: it would never return
+            for prop in ["C09", "C21"] {
+                if self.props.has(Props::id(prop)) {
+                    self.out.push(Violation::new(
+                        prop,
+                        "call-did-not-return",
+                        format!("call #{id} {call:?} did not return within the step budget of one call (retry loop or recursion without bound)"),
+                    ));
+                }
+            }
             self.stop = true;
             return;
         }
